@@ -868,8 +868,7 @@ func gatedQPhase(t *testing.T, prop string) func(rep *Report, dir string) {
 			}
 		}
 
-		rep.CoqFiles = append(rep.CoqFiles, f.finish(t, dir))
-		rep.CaseFiles = append(rep.CaseFiles, writeJSONL(t, dir, prop+"_gated_cases.jsonl", jl))
+		f.finishSharded(t, dir, rep, jl, 400)
 	}
 }
 
